@@ -69,6 +69,7 @@ def gen_params(rng):
         "error_rate": rng.choice([0.0, 0.0, 0.02]),
         "het_prob": rng.choice([0.5, 0.7]),
         "gt_noise": rng.choice([(0.0, 0.0), (0.1, 0.05), (0.3, 0.1)]),
+        "unsorted_gt": rng.choice([0.0, 0.0, 0.3]),  # heterozygous calls written 1/0
     }
     opts = {"reference": False, "tag": rng.choice(["PS", "HP"]), "max_coverage": rng.choice([6, 15])}
     if rng.random() < 0.25:
@@ -192,7 +193,35 @@ def run_one(rng, counters):
     try:
         p, opts = gen_params(rng)
         sim = genome.simulate(rng, tmp, p)
-        ro = {k: v for k, v in opts.items() if k != "genmap"}
+        if rng.random() < 0.3:
+            # the input was phased before by another tool: any heterozygous call may carry '|' and a PS value - also at variants
+            # with a Mendelian conflict or a missing genotype, which must come out unphased in all members
+            sim.doc.meta.append('##FORMAT=<ID=PS,Number=1,Type=Integer,Description="Phase set identifier">')
+            for r in sim.doc.records:
+                r["fmt"] = r["fmt"] + ["PS"]
+                for call in r["calls"]:
+                    call["PS"] = "."
+                    al = call["GT"].split("/")
+                    if len(al) == 2 and "." not in al and al[0] != al[1] and rng.random() < 0.6:
+                        if rng.random() < 0.5:
+                            al.reverse()
+                        call["GT"] = "|".join(al)
+                        call["PS"] = str(rng.choice([17, 170, r["pos"]]))
+            if len(sim.chroms) > 1 and rng.random() < 0.5:
+                # a contig (chrM, a scaffold) on which every variant is excluded for every family: a member without genotype
+                last = sim.chroms[-1]
+                for r in sim.doc.records:
+                    if r["chrom"] != last:
+                        continue
+                    for trio in sim.pedigree:
+                        k = sim.doc.samples.index(rng.choice(trio))
+                        r["calls"][k]["GT"] = "./."
+                        r["calls"][k]["PS"] = "."
+                opts["contig_without_usable_variants"] = last
+            sim.doc.write(sim.vcf)
+            opts["prephased_input"] = True
+            counters["runs_with_prephased_input"] = counters.get("runs_with_prephased_input", 0) + 1
+        ro = {k: v for k, v in opts.items() if k not in ("genmap", "prephased_input", "contig_without_usable_variants")}
         ro["ped"] = sim.ped
         if opts.get("genmap"):
             gm = os.path.join(tmp, "genmap.txt")
